@@ -19,6 +19,8 @@ import FordModel.ScopeBind
 import FordModel.Lemmas.ScopeBind
 import FordModel.ScopeSub
 import FordModel.Lemmas.ScopeSub
+import FordModel.ScopeAccess
+import FordModel.Lemmas.ScopeAccess
 import FordModel.Generated.C07
 namespace Ford.C07
 open Ford Ford.Scope
@@ -423,8 +425,8 @@ theorem generic_specifics_partial (rs : List TypeRec) (h : ∀ r ∈ rs, r.paren
 /-- type ta (1) has the binding pa (10) and `generic :: g => pa` (cell 0); its extension tb (2)
     overrides pa (11); tc (3) extends tb and has `generic :: h => pa` (cell 1). -/
 def wGeneric : List TypeRec :=
-  [⟨1, none, [(['p','a'], 10)], [(0, ['P','a'])]⟩, ⟨2, some 1, [(['p','a'], 11)], []⟩,
-   ⟨3, some 2, [], [(1, ['p','a'])]⟩]
+  [⟨1, none, [(['p','a'], 10)], [(0, ['P','a'])], []⟩, ⟨2, some 1, [(['p','a'], 11)], [], []⟩,
+   ⟨3, some 2, [], [(1, ['p','a'])], []⟩]
 
 /-- **generic_specifics_witness**: the code as found leaves tb's overriding binding (11) in the
     list of ta's generic binding, where Fortran designates ta's own binding (10); tc's generic
@@ -680,5 +682,246 @@ theorem slot_lookups_generated :
         Ford.C07Gen.slotLookups.lookup k == some ["all_procs"]) = true ∧
       Ford.C07Gen.lookupsIgnoreCase = true := by
   decide
+
+/-! ### Round 6: PRIVATE type-bound procedures are inherited -/
+
+/-- **generic_specifics_private_partial** (code as found: an extension skips the PRIVATE bindings of
+    its parent).  When no type of the sequence has a PRIVATE binding (decidable), skipping them is
+    unobservable: the model of the code as found is the model that inherits every binding - the one
+    `generic_specifics_correct` is about -, for shared and for own lists of specifics, any number of
+    types, any inheritance. -/
+theorem generic_specifics_private_partial (sh : Bool) (rs : List TypeRec) (h : ∀ r ∈ rs, r.privs = []) :
+    runTypesD true sh [] [] rs = runTypes sh [] [] rs :=
+  runTypesD_noPrivs sh rs [] [] h (fun _ _ hs => by simp [storeGet] at hs)
+
+/-- the switch off is the model without it (ties `runTypesD false` to the theorems about `runTypes`) -/
+theorem generic_specifics_inherit_all (sh : Bool) (rs : List TypeRec) (st : TStore) (cells : Cells) :
+    runTypesD false sh st cells rs = runTypes sh st cells rs :=
+  runTypesD_false sh rs st cells
+
+/-- `type ta` (1) with `procedure, private :: pa` (10) and a public `pb` (12); `type, extends(ta) :: tb`
+    (2) in the same module with `generic :: g => pa, pb` (slots 0, 1); `type, extends(tb) :: tc` (3)
+    overrides nothing and has `generic :: h => pa` (slot 2). -/
+def wPrivate : List TypeRec :=
+  [⟨1, none, [(['p','b'], 12), (['p','a'], 10)], [], [10]⟩,
+   ⟨2, some 1, [], [(0, ['p','a']), (1, ['P','b'])], []⟩,
+   ⟨3, some 2, [], [(2, ['p','a'])], []⟩]
+
+/-- **generic_specifics_private_witness**: the code as found does not hand ta's PRIVATE binding `pa`
+    down to its extensions, so the specific `pa` of tb's and tc's generic bindings stays text although
+    the binding is inherited (F2018 7.5.7.2) and, in the module that defines ta, accessible; the public
+    `pb` is found.  Inheriting every binding, the model equals the specification. -/
+theorem generic_specifics_private_witness :
+    genericResD true false wPrivate = [(0, none), (1, some 12), (2, none)] ∧
+      genericResD false false wPrivate = [(0, some 10), (1, some 12), (2, some 10)] ∧
+      specGenericRes [] wPrivate = [(0, some 10), (1, some 12), (2, some 10)] := by decide
+
+/-- **private_binding_generated** (regenerated table): on the translator's witness (the Fortran text of
+    `wPrivate`) the working tree leaves in the three specifics what the model computes - as found
+    (PRIVATE bindings skipped) or with the repair (every binding inherited = the specification). -/
+theorem private_binding_generated :
+    Ford.C07Gen.privateProbe = genericResD true false wPrivate ∨
+      Ford.C07Gen.privateProbe = genericResD false false wPrivate := by decide
+
+/-! ### Round 6: accessibility - a USE statement sees exactly the PUBLIC identifiers of a module -/
+
+section Access
+open Ford.ScopeAccess
+
+/-- **accessibility_is_fortran** ("use-associated" means: accessible).  The accessibility FORD has
+    settled for a declared entity at the moment the module's public tables are derived is the one
+    Fortran gives its identifier: the access statement that names it, else the access attribute of
+    the derived type of that name (so the generic interface named like a type - its user-defined
+    constructor - follows the type), else the module's default.  For every module, any number of
+    declarations and statements; hypotheses = the module is Fortran: an identifier is named by at most
+    one access statement, only type declarations carry an access attribute, type names are distinct,
+    a procedure or abstract interface is not named like a type. -/
+theorem accessibility_is_fortran (m : AModule) (d : ADecl) (hS : stmtsOnce m.stmts = true)
+    (hA : d.kind ≠ .ty → d.attr = none)
+    (hT : d.kind = .ty → typeNamed m.decls (lower d.name) = some d)
+    (hP : (d.kind = .pr ∨ d.kind = .ab) → typeNamed m.decls (lower d.name) = none) :
+    finalPerm asBuilt m d = accOf m (lower d.name) := by
+  have hl := lastPerm_eq_firstPerm m.stmts (lower d.name) hS
+  cases hk : d.kind with
+  | ty =>
+    have h1 := hT hk
+    simp [finalPerm, hk, declPerm, accOf, hl, h1]
+    cases firstPerm m.stmts (lower d.name) <;> simp
+  | gi =>
+    have ha := hA (by simp [hk])
+    cases ht : typeNamed m.decls (lower d.name) with
+    | none =>
+      simp [finalPerm, asBuilt, hk, ht, declPerm, accOf, hl, ha]
+      cases firstPerm m.stmts (lower d.name) <;> simp
+    | some t =>
+      have h3 := typeNamed_some _ _ _ ht
+      simp [finalPerm, asBuilt, hk, ht, declPerm, accOf, hl, h3.2.2]
+      cases firstPerm m.stmts (lower d.name) <;> simp
+  | pr =>
+    have ha := hA (by simp [hk])
+    have h1 := hP (Or.inl hk)
+    simp [finalPerm, hk, declPerm, accOf, hl, h1, ha]
+    cases firstPerm m.stmts (lower d.name) <;> simp
+  | ab =>
+    have ha := hA (by simp [hk])
+    have h1 := hP (Or.inr hk)
+    simp [finalPerm, hk, declPerm, accOf, hl, h1, ha]
+    cases firstPerm m.stmts (lower d.name) <;> simp
+
+/-- **constructor_shares_type_accessibility** ("a structure constructor ... denotes the entity that
+    Fortran's scoping rules designate"): when the public tables are derived, the generic interface
+    named like a derived type of the module has that type's accessibility - whatever was written on
+    the type statement, in access statements, or inherited from the module's default. -/
+theorem constructor_shares_type_accessibility (m : AModule) (g t : ADecl) (hg : g.kind = .gi)
+    (ht : typeNamed m.decls (lower g.name) = some t) :
+    finalPerm asBuilt m g = finalPerm asBuilt m t := by
+  have h3 := typeNamed_some _ _ _ ht
+  simp [finalPerm, asBuilt, hg, ht, h3.2.1]
+
+/-- **private_entities_not_exported** ("declarations ... invisible", "a name with no visible
+    declaration stays unresolved"): every entry of a public table FORD derives from a module's own
+    declarations is a declared entity of that kind whose accessibility is PUBLIC at that moment -
+    nothing PRIVATE is handed to a USE statement (any variant, any module). -/
+theorem private_entities_not_exported (v : AVariant) (m : AModule) (k : DK) (x : Str × Ent)
+    (h : x ∈ localPubK v m k m.decls) :
+    ∃ d ∈ m.decls, d.kind = k ∧ finalPerm v m d = .pub ∧ x = (lower d.name, d.ent) :=
+  localPubK_sound v m k m.decls x h
+
+/-- **public_entities_exported**: and every declared entity that is PUBLIC is in the public table of
+    its kind under its lower-cased name. -/
+theorem public_entities_exported (v : AVariant) (m : AModule) (d : ADecl) (hm : d ∈ m.decls)
+    (hp : finalPerm v m d = .pub) :
+    (lower d.name, d.ent) ∈ localPubK v m d.kind m.decls :=
+  localPubK_complete v m m.decls d hm hp
+
+/-- **reexport_follows_default**: what a module passes on of the entities it use-associates itself:
+    under the name `n` exactly what it imported, if the module's default is PUBLIC or `n` is on its
+    public list; nothing otherwise (a default-PRIVATE module hides what it uses unless a PUBLIC
+    statement names it). -/
+theorem reexport_follows_default (m : AModule) (tb : Table) (n : Str) :
+    tget (filterTable (shouldBePublic m) tb) n =
+      if m.dflt = .pub ∨ n ∈ publicList m then tget tb n else none := by
+  rw [filterTable_get]
+  simp [shouldBePublic]
+
+/-- **exports_are_accessible_frame** ("a declaration ... wins over use-associated ... ones" presupposes
+    what is use-associated): for every module that is Fortran - any number of declarations, access
+    statements and USE statements (with ONLY lists and renames), any modules before it - the public
+    tables FORD builds (`_cleanup`: accessibility from default / attribute / statements, constructor
+    follows its type, `filter_public`; `correlate`: `pub_*.update(filter_public(imported))`) answer
+    every lookup exactly like the specification: the identifiers visible at the module's top level
+    (declared or use-associated) that Fortran makes PUBLIC there.  Hypotheses = validity of the
+    module: at most one access statement per identifier, access attributes on type declarations only,
+    distinct type names, no procedure named like a type, a PRIVATE statement names declared
+    identifiers only (`privatesDeclared`; the excluded class is C06-private-imported-reexported), no
+    declared identifier is also use-associated. -/
+theorem exports_are_accessible_frame (env : ModEnv) (m : AModule)
+    (hS : stmtsOnce m.stmts = true) (hV : privatesDeclared m = true)
+    (hA : ∀ d ∈ m.decls, d.kind ≠ .ty → d.attr = none)
+    (hT : ∀ d ∈ m.decls, d.kind = .ty → typeNamed m.decls (lower d.name) = some d)
+    (hP : ∀ d ∈ m.decls, (d.kind = .pr ∨ d.kind = .ab) → typeNamed m.decls (lower d.name) = none)
+    (hC : ∀ u ∈ m.uses, ∀ x, findMod env (lower u.mod) = some x → ∀ n, declared m.decls n = true →
+      tget (importTable x.p u) n = none ∧ tget (importTable x.a u) n = none ∧ tget (importTable x.t u) n = none)
+    (n : Str) :
+    tget (exportsA asBuilt env m).p n = tget (specExportsA env m).p n ∧
+      tget (exportsA asBuilt env m).a n = tget (specExportsA env m).a n ∧
+      tget (exportsA asBuilt env m).t n = tget (specExportsA env m).t n := by
+  have hfin : ∀ d ∈ m.decls, finalPerm asBuilt m d = accOf m (lower d.name) :=
+    fun d hd => accessibility_is_fortran m d hS (hA d hd) (hT d hd) (hP d hd)
+  have base : SameF m
+      ⟨localPubK asBuilt m .gi m.decls ++ localPubK asBuilt m .pr m.decls, localPubK asBuilt m .ab m.decls,
+        localPubK asBuilt m .ty m.decls⟩
+      ⟨localAllK .gi m.decls ++ localAllK .pr m.decls, localAllK .ab m.decls, localAllK .ty m.decls⟩ := by
+    intro k
+    simp [localPubK_filter asBuilt m _ m.decls hfin, filterTable_append]
+  have hC' : ∀ u ∈ m.uses, ∀ x, findMod env (lower u.mod) = some x → ∀ k,
+      (tget (importTable x.p u) k ≠ none ∨ tget (importTable x.a u) k ≠ none ∨ tget (importTable x.t u) k ≠ none) →
+        shouldBePublic m k = accessible m k := by
+    intro u hu x hx k hk
+    cases hd : declared m.decls k with
+    | false => exact shouldBePublic_undeclared m k hV hd
+    | true =>
+      have h3 := hC u hu x hx k hd
+      simp [h3.1, h3.2.1, h3.2.2] at hk
+  exact reexports_same m env m.uses _ _ base hC' n
+
+/-- default-PRIVATE module: `type, public :: tb` (1) with constructor `interface tb` (2), `public :: pa`,
+    procedures pa (3), pb (4), type ta (5) -/
+def wAcc : AModule :=
+  ⟨['m','0'], .priv, [(.pub, ['P','a'])], [],
+   [⟨.ty, ['t','b'], 1, some .pub⟩, ⟨.gi, ['T','b'], 2, none⟩, ⟨.pr, ['p','a'], 3, none⟩, ⟨.pr, ['p','b'], 4, none⟩,
+    ⟨.ty, ['t','a'], 5, none⟩], []⟩
+
+/-- non-vacuity of `exports_are_accessible_frame`: its hypotheses hold for `wAcc`, whose public tables
+    hold the constructor of the PUBLIC type and the procedure named PUBLIC, and nothing else -/
+example : (∀ n, tget (exportsA asBuilt [] wAcc).p n = tget (specExportsA [] wAcc).p n) ∧
+    (exportsA asBuilt [] wAcc).p = [(['t','b'], 2), (['p','a'], 3)] ∧
+    (exportsA asBuilt [] wAcc).t = [(['t','b'], 1)] :=
+  ⟨fun n => (exports_are_accessible_frame [] wAcc (by decide) (by decide) (by decide) (by decide) (by decide)
+      (by intro u hu; simp [wAcc] at hu) n).1, by decide, by decide⟩
+
+/-- m0: `type, private :: ta` (1) with the constructor idiom `interface ta` (2), default PUBLIC;
+    m1 uses m0 and declares its own `type ta` (3): slot 0 = constructor of m1's ta, slot 1 =
+    `procedure(ta)`; m2 uses m0 and declares `type ta` (4) with its own `interface ta` (5): slot 2 =
+    constructor of m2's ta. -/
+def wCtor : List AModule :=
+  [⟨['m','0'], .pub, [], [], [⟨.ty, ['t','a'], 1, some .priv⟩, ⟨.gi, ['T','a'], 2, none⟩], []⟩,
+   ⟨['m','1'], .pub, [], [⟨['m','0'], false, []⟩], [⟨.ty, ['t','a'], 3, none⟩],
+    [⟨0, .pr, .early, ['t','a']⟩, ⟨1, .pa, .early, ['T','A']⟩]⟩,
+   ⟨['m','2'], .pub, [], [⟨['M','0'], false, []⟩], [⟨.ty, ['t','a'], 4, none⟩, ⟨.gi, ['t','a'], 5, none⟩],
+    [⟨2, .pr, .early, ['t','a']⟩]⟩]
+
+/-- non-vacuity with use association: m1 of `wCtor` (own `type ta`, `use m0` where m0 hides its `ta`)
+    satisfies the hypotheses against m0's public tables; its own `ta` is exported, m0's is not -/
+example : (∀ n, tget (exportsA asBuilt [(['m','0'], exportsA asBuilt [] wCtor[0])] wCtor[1]).t n =
+      tget (specExportsA [(['m','0'], exportsA asBuilt [] wCtor[0])] wCtor[1]).t n) ∧
+    (exportsA asBuilt [(['m','0'], exportsA asBuilt [] wCtor[0])] wCtor[1]).t = [(['t','a'], 3)] ∧
+    (exportsA asBuilt [(['m','0'], exportsA asBuilt [] wCtor[0])] wCtor[1]).p = [] :=
+  ⟨fun n => (exports_are_accessible_frame _ wCtor[1] (by decide) (by decide) (by decide) (by decide) (by decide)
+      (by
+        intro u hu x hx k _
+        have hu' : u = ⟨['m','0'], false, []⟩ := by simpa [wCtor] using hu
+        subst hu'
+        have hx' : x = exportsA asBuilt [] wCtor[0] := by
+          have : findMod [(['m','0'], exportsA asBuilt [] wCtor[0])] (lower ['m','0']) =
+              some (exportsA asBuilt [] wCtor[0]) := by rfl
+          rw [this] at hx
+          exact (Option.some.inj hx).symm
+        subst hx'
+        have e : exportsA asBuilt [] wCtor[0] = ⟨[], [], []⟩ := by rfl
+        rw [e]
+        simp [importTable, tget]) n).2.2, by decide, by decide⟩
+
+/-- **constructor_sync_late_witness**: the order of the two steps is load-bearing.  If the
+    constructor gets its type's accessibility only after the public tables were derived, the
+    interface of the PRIVATE type is exported, becomes the "constructor" of the using modules' own
+    types `ta` (slots 0, 2) and the target of `procedure(ta)` (slot 1); settled before, nothing of
+    m0 is visible: no constructor / text / m2's own interface = the specification. -/
+theorem constructor_sync_late_witness :
+    (corrProjectA syncLate [] wCtor).map (·.2) = [some 2, some 2, some 2] ∧
+      (corrProjectA asBuilt [] wCtor).map (·.2) = [none, none, some 5] ∧
+      (specProjectA [] wCtor).map (·.2) = [none, none, some 5] := by decide
+
+/-- **access_generated** (regenerated table): on the translator's witness project (a default-PUBLIC
+    and a default-PRIVATE module with the constructor idiom with and without access attribute on the
+    type, access statements, users of both, a default-PRIVATE re-exporter with a PUBLIC statement, a
+    module declaring a type of a hidden name) the implementation under test stores in every
+    reference slot, and holds in every public table under every candidate name, exactly what the
+    model computes - and that is what the specification designates. -/
+theorem access_generated :
+    (corrProjectA asBuilt [] (Ford.C07Gen.accessWitness.map ofProbe)).map (fun r => (r.1.id, r.2)) =
+        Ford.C07Gen.accessSlots ∧
+      exportsAnswer (exportsProjectA asBuilt [] (Ford.C07Gen.accessWitness.map ofProbe))
+        Ford.C07Gen.accessExported = true ∧
+      (specProjectA [] (Ford.C07Gen.accessWitness.map ofProbe)).map (fun r => (r.1.id, r.2)) =
+        Ford.C07Gen.accessSlots := by decide
+
+/-- non-vacuity: the hypotheses of `accessibility_is_fortran` hold for both declarations of the
+    witness module m0, and the two accessibilities are PRIVATE -/
+example : stmtsOnce ([] : List (Perm × Str)) = true ∧
+    typeNamed [⟨.ty, ['t','a'], 1, some .priv⟩, ⟨.gi, ['T','a'], 2, none⟩] ['t','a'] =
+      some ⟨.ty, ['t','a'], 1, some .priv⟩ := by decide
+
+end Access
 
 end Ford.C07
